@@ -76,7 +76,7 @@ CHECKS = {
             "After every action the stored (address, score) list of each peer is compared with the snapshot before: bound 64, attribution to the peer, newly "
             "remembered addresses must pass the TCP transport's own parser and must not be own listen addresses, provenance from offered addresses, lowest-scored "
             "displacement at the bound, re-scoring of exactly the address used, rediscovery never changes a score, dial(peer) opens a top-k by score within free capacity.",
-            "Scores are read through a verif accessor; strict eviction/rediscovery checks are applied to single-address inserts.",
+            "Scores are read through a verif accessor; strict eviction/rediscovery checks are applied to single-address inserts; an unspecified IP offered through add_known_address counts as not dialable. Node level (real TCP transport): for /ip4, /dns and /dns4 addresses the established connection reports the dialed address and a later dial by peer id tries only offered addresses.",
             "DESIGN.md §3 C10"),
     "C13": ("fault_enumeration",
             "request ledger over real nodes (loopback TCP, fault proxy with resets/chunking/delay, chaos executor, scripted requester and responder)",
@@ -85,8 +85,8 @@ CHECKS = {
             "concurrency limit; every call and event is stamped at the user boundary; oracle: at most one terminal event per request id, exactly one within "
             "4 x (dial timeout + 2 x request timeout) unless cancelled, response bytes equal what the responder supplied for that nonce, responder sees each nonce once, "
             "fresh unanswered inbound requests within the configured bound.",
-            "Real time: a scheduler-lag canary downgrades starved runs to inconclusive; held = on the scenarios run.",
-            "DESIGN.md §3 C13"),
+            "Real time: a scheduler-lag canary downgrades starved runs to inconclusive; held = on the scenarios run. Directed families: unreachable peer connects by itself after its requests failed (no stale send, no second event); 4700 immediately failing requests issued before the handle is first polled (more outcomes than the event channel holds), both entry points.",
+            "DESIGN.md §3 C13, §11.4"),
     "C14": ("exploration",
             "brute-force XOR oracle over routing-table dumps (hook) + structural invariants on random histories with crafted keys covering all 256 buckets",
             "Histories of inserts (crafted keys through the real entry()), public mutators, connection-state changes, dial failures and pure look-ups; after every "
@@ -117,7 +117,7 @@ CHECKS = {
             "blackhole the connection, reset after n bytes (fault proxy) or accept substreams and stay silent; with and without connection limits. Every find_node/get_record/"
             "put_record/put_record_to_peers/get_providers/start_providing call is entered in a ledger by QueryId; the event stream must end each one exactly once, with an event "
             "of the right kind, successes only with the requested quorum, within a window derived from the configured timeouts (bounded progress; lag canary makes a starved run inconclusive).",
-            "Unbounded 'eventually' is restated as 'within 106 s of wall time with an idle canary'.",
+            "Unbounded 'eventually' is restated as 'within 106 s of wall time with an idle canary'. Placements include peers the node knows no address for; the quorum is counted over the addressable targets (at least 1), as the code documents.",
             "DESIGN.md §3 C16"),
     "C17": ("exploration",
             "invariants on MemoryStore dumps + reference store comparison on random operation histories over the full configuration grid (short real sleeps cross expiries)",
@@ -151,8 +151,8 @@ CHECKS["C11"] = ("exploration",
             "opened only after an Accept (or auto-accept with an own request outstanding), outbound opens never exceed requests; from a known idle connected state one "
             "open request must yield exactly one opened/open-failure within 48 s; a reset connection must close the stream on both sides; a fresh peer must still be served; "
             "no litep2p task may panic (debug assertions on in the dbgchk profile).",
-            "Storm-phase liveness is not judged; probe windows are guarded by a timer-lag canary.",
-            "DESIGN.md §3 C11")
+            "Storm-phase liveness is not judged; probe windows are guarded by a timer-lag canary. Directed families: a validation prompt left unanswered across a connection loss and reconnect and answered late; a stale dial that fails for an already connected peer in the middle of the storm.",
+            "DESIGN.md §3 C11, §11.4")
 CHECKS["C12"] = ("exploration",
             "unique-id prefix/order checker per (sender, receiver, mode, open period) over the same real-node runs as C11",
             "Every notification carries (sender, mode, epoch, seq, prf fill); offline: delivered notifications are intact, within the maximum size, strictly increasing in "
